@@ -8,6 +8,11 @@ HOOK_COMMITS = subprocess.run(
 
 CHECKS = {
     # id: (engine, category, technique, text, note, design_ref)
+    "C12": ("H-inputs", "exploration",
+            "bounded exhaustive input enumeration (patch documents x workspace states) against a reference map model, real apply_patch on a real directory",
+            "Every patch of <=2 ops (<=3 on a reduced set in thorough) over a 4-path / 12-hunk-list alphabet plus 16 malformed envelopes is applied by the real Workspace::apply_patch (and the apply_patch tool) to every enumerated workspace state; success must equal the reference map and name exactly the touched files, failure must leave every byte unchanged.",
+            "Values outside the alphabet (other line contents, >3 ops, symlinks, permission errors) are not covered; hunk-matching rules of the reference restate the code's documented behaviour (first match at/after cursor); mixed-EOL files compared modulo CR; left-over empty directories are information only.",
+            "DESIGN.md §3 C12"),
     "C20": ("H-bfs", "model_checking",
             "explicit-state BFS over the real TuiState::update transition function with state dedup",
             "All states reachable within the depth bound from the initial TuiState, over a frame alphabet covering every surface-relevant kind x seq {0,1,2,5,u64::MAX} x 9 capacity settings, are enumerated by executing the real update function; no-panic, bounds, lookup exactness and fold determinism are checked in every state, render on every new state up to a smaller depth.",
@@ -56,6 +61,8 @@ def main():
         "engines": [
             {"name": "H-bfs", "path": "/verif/harness/src", "serves_properties": ["C20"],
              "kind_free_text": "bounded exhaustive sequence/input enumeration over the real code (BFS with state keys where futures coincide)"},
+            {"name": "H-inputs", "path": "/verif/harness/src", "serves_properties": sorted(k for k, v in CHECKS.items() if v[0] == "H-inputs"),
+             "kind_free_text": "bounded exhaustive enumeration of an input grammar against a reference model / differential oracle on the real code"},
         ],
         "checks": checks,
         "not_applicable": na,
